@@ -89,7 +89,7 @@ def r1(run, ctx):
             run.check('R1', must in given, 'Process receives %s' % must, f, s.node.ast,
                       'the configured %s is not handed to the worker' % must,
                       construct='Process missing %s' % must)
-    run.count('R1', n, 12, 'keywords of Process(...)')
+    run.count('R1', n, 8, 'keywords of Process(...)')
     # Process.__init__ stores params under the same name
     stored = {}
     for st in walk_local(init.node):
@@ -152,7 +152,7 @@ def r2(run, ctx):
            any(isinstance(t, ast.Name) and t.id == 'args' for t in n.ast.targets)]
     aug = [n for n in ctx.live_nodes(f) if n.kind == 'stmt' and isinstance(n.ast, ast.AugAssign)
            and isinstance(n.ast.target, ast.Name) and n.ast.target.id == 'args']
-    run.count('R2', len(asg), 4, 'assignments building the vector')
+    run.count('R2', len(asg), 3, 'assignments building the vector')
 
     def is_str_args(e):
         if isinstance(e, ast.Call) and dotted(e.func) == 'isinstance' and \
